@@ -216,6 +216,13 @@ def run(tier, work):
         verdict.add(sig, [json.dumps(it)] + [json.dumps(p) for p in projs[badi][:upto + 1]],
                     "%s: first unexplainable event #%d: %s" % (json.dumps(it), upto + 1, json.dumps(bad)))
     print("TLC P3 EvalBudgetTrace: %d executions / %d events accepted" % (accepted, nevents))
+    # ---- the whole call surface of C01 (every efun x position x kind, operators, index / range forms) once more with
+    # lowered limits: whatever an evaluation returns or leaves in its variables must respect them
+    import c01
+    nsurf = c01.run(tier, work, over_verdict=verdict)
+    print("SURFACE (checks/c01.py enumeration, limits %s): %d evaluations returned values, all measured" % (json.dumps(c01.OVER_LIMITS), nsurf))
+    if nsurf < 1000:
+        raise vlib.Broken("the surface run returned only %d values" % nsurf)
     rc = verdict.finish()
     samples = [{"case": metas[0], "trace": projs[0][:8]}, {"case": metas[-1], "trace": projs[-1][:8]}]
     vlib.write_evidence(PROP, tier, "model_checking", dict(
